@@ -426,7 +426,7 @@ func (x *txnCtx) rangeOp(op *Op) {
 	w := x.w
 	want := x.applyFilter(op.Filter)
 	var visited []uint32
-	n := 0
+	n, nres := 0, 0
 	err := x.txn.Range(func(idx uint32) {
 		visited = append(visited, idx)
 		if w.viol != nil {
@@ -436,15 +436,20 @@ func (x *txnCtx) rangeOp(op *Op) {
 			w.fail(violation("cursor", "Range callback for %d has the cursor at %d", idx, x.txn.Index()))
 			return
 		}
-		if (op.Limit > 0 && n >= op.Limit) || (!x.exact && n >= 8) || n >= 32 {
+		_, isReserved := w.model.Reserved[idx]
+		if ((op.Limit > 0 && n >= op.Limit) || (!x.exact && n >= 8) || n >= 32) && !(isReserved && nres < 3) {
 			return
 		}
 		n++
 		if by, reserved := w.model.Reserved[idx]; reserved {
+			nres++ // rows reserved by in-flight inserts are looked at wherever they are (a full block has 16K rows before them)
 			// own in-flight insert: not asserted either way; someone else's: a phantom
 			if by != x.thread && w.conc != nil && w.conc.or.phantom && !w.avoid["phantom-reserved"] {
 				w.noteTrigger("phantom-reserved")
 				w.fail(violation("phantom-insert/range", "Range visited offset %d which is only reserved by the uncommitted insert of thread %d", idx, by))
+			}
+			if by != x.thread && !x.exact && w.viol == nil {
+				x.checkReservedRow(idx, op.Yield)
 			}
 			return
 		}
@@ -466,6 +471,43 @@ func (x *txnCtx) rangeOp(op *Op) {
 		}
 	}
 	w.stats.Checks++
+}
+
+// checkReservedRow runs when a Range callback is positioned on an offset that is only
+// reserved by somebody else's uncommitted insert (that it is visited at all is C02's known
+// finding and not judged here). The callback holds the block's read latch, so the insert
+// cannot commit meanwhile: the row must show nothing when the callback starts (anything
+// else was left behind by a previous occupant) and still nothing after the scheduler had a
+// chance to run the inserter's commit (anything else is a commit applied beside a reader
+// positioned on the row: a half-applied state of that row).
+func (x *txnCtx) checkReservedRow(off uint32, yield bool) {
+	w := x.w
+	pass := func(sig, what string) bool {
+		for _, col := range w.model.Cols {
+			if col.Kind == KKey {
+				continue
+			}
+			w.stats.Reads++
+			if v, ok := readCol(x.txn, column.Row{}, col, flTxn); ok && !(col.Kind == KBool && v.U == 0) {
+				w.fail(violation(sig+"/"+string(col.Kind), "row %d, reserved by an uncommitted insert, %s %s in column %q inside a Range callback", off, what, v.show(col.Kind), col.Name))
+				return false
+			}
+		}
+		return true
+	}
+	if !pass("stale-on-insert", "already shows") || !yield {
+		return
+	}
+	if _, still := w.model.Reserved[off]; !still {
+		return
+	}
+	w.sim.Yield(ptInRead)
+	if _, live := w.model.Rows[off]; live {
+		// the model says the insert was committed while this callback held the block
+		w.fail(violation("torn-read/commit-beside-positioned-reader", "the insert of row %d was committed while a Range callback positioned on that row held the block", off))
+		return
+	}
+	pass("torn-read/reserved-row", "shows, after having shown nothing,")
 }
 
 // checkRowTxn is checkRow through the transaction-level readers (Range callbacks).
